@@ -15,7 +15,14 @@ ROOT = os.path.dirname(os.path.dirname(os.path.abspath(__file__)))
 def load(pid: str) -> list:
     with open(os.path.join(ROOT, "known_findings.json")) as fh:
         doc = json.load(fh)
-    return [f for f in doc.get("findings", []) if f["property"] == pid]
+    found = list(doc.get("findings", []))
+    d = os.path.join(ROOT, "known_findings.d")   # staging area while checks are being built; merged before release
+    if os.path.isdir(d):
+        for fn in sorted(os.listdir(d)):
+            if fn.endswith(".json"):
+                with open(os.path.join(d, fn)) as fh:
+                    found += json.load(fh).get("findings", [])
+    return [f for f in found if f["property"] == pid]
 
 
 def match(findings: list, facts: dict):
